@@ -16,6 +16,18 @@ import (
 
 // C20: auth, method-override and http.Handler wrappers behave as gates.
 
+// c20CapW is a writer a middleware puts in place of c.Resp: it records what passes through it
+type c20CapW struct {
+	http.ResponseWriter
+	buf []byte
+	on  bool
+}
+
+func (w *c20CapW) Write(b []byte) (int, error) {
+	w.buf = append(w.buf, b...)
+	return w.ResponseWriter.Write(b)
+}
+
 type c20Case struct {
 	Kind     string `json:"kind"` // auth | override | wrappers | wraph
 	Accounts int    `json:"accounts,omitempty"`
@@ -77,12 +89,12 @@ func c20Run(c c20Case, st *fw.Stats) []fw.Viol {
 	switch c.Kind {
 	case "auth":
 		accounts := c20Accounts[c.Accounts]
-		for _, placement := range []string{"route", "global", "group"} {
+		for _, placement := range []string{"route", "global", "group", "global+405", "global+404"} {
 			for _, hdr := range c20Auth {
 				st.Evals++
 				st.Nontrivial++
 				var trace []string
-				r := rux.New()
+				r := rux.New(rux.HandleMethodNotAllowed)
 				auth := handlers.HTTPBasicAuth(accounts)
 				after := func(ctx *rux.Context) { trace = append(trace, "after-mw") }
 				main := func(ctx *rux.Context) {
@@ -97,8 +109,25 @@ func c20Run(c c20Case, st *fw.Stats) []fw.Viol {
 					r.GET("/s", main, after)
 				case "group":
 					r.Group("/", func() { r.GET("/s", main, after) }, auth)
+				case "global+405", "global+404":
+					// the gate is global: it also guards requests that end in the not-allowed / not-found handlers
+					r.Use(auth)
+					r.GET("/s", main, after)
+					r.NotAllowed(func(ctx *rux.Context) {
+						trace = append(trace, "after-mw", fmt.Sprintf("main user=%v", ctx.SafeGet("username")))
+						ctx.WriteString("secret")
+					})
+					r.NotFound(func(ctx *rux.Context) {
+						trace = append(trace, "after-mw", fmt.Sprintf("main user=%v", ctx.SafeGet("username")))
+						ctx.WriteString("secret")
+					})
 				}
 				req := httptest.NewRequest("GET", "/s", nil)
+				if placement == "global+405" {
+					req = httptest.NewRequest("DELETE", "/s", nil)
+				} else if placement == "global+404" {
+					req = httptest.NewRequest("GET", "/nowhere", nil)
+				}
 				if hdr != "<absent>" {
 					req.Header["Authorization"] = []string{hdr}
 				}
@@ -288,6 +317,16 @@ func c20Run(c c20Case, st *fw.Stats) []fw.Viol {
 					}
 				}
 				r := rux.New()
+				// an outermost middleware replaces c.Resp: everything written downstream - natively or by a wrapped
+				// generic handler - must go through the replacement
+				cw := &c20CapW{}
+				if mask%2 == 1 || style == "WrapH" {
+					r.Use(func(ctx *rux.Context) {
+						cw.ResponseWriter = ctx.Resp
+						cw.on = true
+						ctx.Resp = cw
+					})
+				}
 				if c.N > 1 {
 					r.Use(hs[0])
 				}
@@ -300,6 +339,9 @@ func c20Run(c c20Case, st *fw.Stats) []fw.Viol {
 				if pv := try(func() { r.ServeHTTP(w, httptest.NewRequest("GET", "/x", nil)) }); pv != nil {
 					add("wraph:panic", fmt.Sprintf("chain of %d, wrapped positions mask %b (%s): panicked: %v", c.N, mask, style, pv))
 					continue
+				}
+				if cw.on && string(cw.buf) != wantBody {
+					add("wraph:bypasses-replaced-writer", fmt.Sprintf("chain of %d, wrapped positions mask %b (%s), c.Resp replaced by an outer middleware: the replacement saw %q, expected everything written downstream: %q", c.N, mask, style, cw.buf, wantBody))
 				}
 				if strings.Join(trace, " ") != strings.Join(want, " ") || w.Body.String() != wantBody || w.Code != 200 {
 					add("wraph:chain", fmt.Sprintf("chain of %d, wrapped positions mask %b (%s): trace %v body %q status %d; expected %v %q 200", c.N, mask, style, trace, w.Body.String(), w.Code, want, wantBody))
@@ -316,7 +358,7 @@ func c20Run(c c20Case, st *fw.Stats) []fw.Viol {
 var c20Spec = fw.Spec[c20Case]{
 	ID:    "C20",
 	Level: "model_checking",
-	Rule: "complete decision tables: HTTPBasicAuth: 6 account maps (nil, empty, one user, empty password, two users, password containing ':') x 27 Authorization values (incl. the full square of known / unknown / empty users x matching / other / empty passwords) (absent, valid, wrong password, unknown user, empty user / password, no colon, bare scheme, bad base64, scheme in other case, other scheme, double space, padding, leading space, case-changed user, empty) x 3 placements (route, global, group middleware); " +
+	Rule: "complete decision tables: HTTPBasicAuth: 6 account maps (nil, empty, one user, empty password, two users, password containing ':') x 27 Authorization values (incl. the full square of known / unknown / empty users x matching / other / empty passwords) (absent, valid, wrong password, unknown user, empty user / password, no colon, bare scheme, bad base64, scheme in other case, other scheme, double space, padding, leading space, case-changed user, empty) x 5 placements (route, global, group middleware; global gate in front of the not-allowed and of the not-found handlers); " +
 		"HTTPMethodOverrideHandler: 10 request methods x 13 override values x 6 carriers (none, header, query, body, header+query agreeing, header+body disagreeing - the last for totality only); WrapHTTPHandlers: lists of 1..4 distinguishable wrappers (+ the override gate in the list); WrapHTTPHandler / WrapHTTPHandlerFunc and their four aliases at every subset of positions of chains n<=4; every row is non-trivial",
 	Assume: []string{"'well-formed Basic credentials' = scheme Basic (any case), one space, valid base64, a colon in the decoded text", "when both override carriers disagree the statement does not say which wins; those rows are executed but not asserted"},
 	Bounds: func(tier string) map[string]any {
